@@ -219,19 +219,21 @@ func (d *DDB) PutItem(table string, item Item, cond string, names map[string]str
 }
 
 // Query implements `#k = :v` key conditions with ScanIndexForward and Limit.
-func (d *DDB) Query(table, keyCond string, names map[string]string, values map[string]Val, consistent bool, forward bool, limit int, proj string) ([]Item, error) {
+// Query returns, besides the items, the LastEvaluatedKey: as in the service it is set whenever Limit
+// stopped the query (whether or not more items follow), and ExclusiveStartKey resumes after it.
+func (d *DDB) Query(table, keyCond string, names map[string]string, values map[string]Val, consistent bool, forward bool, limit int, proj string, startKey Item) ([]Item, Item, error) {
 	d.S.Point(simrt.KSeam, "ddb.query")
 	d.Stats["Query"]++
 	if f := d.fault("Query"); f != "" {
-		return nil, ErrInjected
+		return nil, nil, ErrInjected
 	}
 	tbl, ok := d.primary[table]
 	if !ok {
-		return nil, fmt.Errorf("ResourceNotFoundException: table %q", table)
+		return nil, nil, fmt.Errorf("ResourceNotFoundException: table %q", table)
 	}
 	parts := strings.Split(keyCond, "=")
 	if len(parts) != 2 {
-		return nil, HarnessError{"key condition " + keyCond}
+		return nil, nil, HarnessError{"key condition " + keyCond}
 	}
 	n, v := strings.TrimSpace(parts[0]), strings.TrimSpace(parts[1])
 	attr, ok := names[n]
@@ -240,7 +242,7 @@ func (d *DDB) Query(table, keyCond string, names map[string]string, values map[s
 	}
 	val, ok := values[v]
 	if attr != "Id" || !ok || val.Kind != 'S' {
-		return nil, HarnessError{"key condition must be Id = :value, got " + keyCond}
+		return nil, nil, HarnessError{"key condition must be Id = :value, got " + keyCond}
 	}
 	view := tbl
 	if !consistent {
@@ -259,18 +261,29 @@ func (d *DDB) Query(table, keyCond string, names map[string]string, values map[s
 		return cs[i] > cs[j]
 	})
 	var out []Item
+	var last Item
+	skipping := startKey != nil
 	for _, c := range cs {
+		if skipping {
+			if strconv.FormatInt(c, 10) == startKey["Created"].S {
+				skipping = false
+			}
+			continue
+		}
 		if limit > 0 && len(out) == limit {
 			break
 		}
 		it, err := project(view[val.S][strconv.FormatInt(c, 10)], proj, names)
 		if err != nil {
-			return nil, err
+			return nil, nil, err
 		}
 		out = append(out, it)
+		if limit > 0 && len(out) == limit {
+			last = Item{"Id": {Kind: 'S', S: val.S}, "Created": {Kind: 'N', S: strconv.FormatInt(c, 10)}}
+		}
 	}
 	d.S.Point(simrt.KSeam, "ddb.query.ret")
-	return out, nil
+	return out, last, nil
 }
 
 // RawItem returns the stored item.
